@@ -143,9 +143,9 @@ public :
     {
         assert(m_bufferSize > 0);
 
-        if (m_buffer.size() == m_bufferSize)
+        if (m_buffer.size() >= m_bufferSize)
         {
-            flushBuffer();
+            flushBufferForMoreData();
         }
 
         m_buffer.push_back(theChar);
@@ -453,6 +453,14 @@ private:
 
     bool
     operator==(const XalanOutputStream&) const;
+
+    /**
+     * Flush the buffer because more data is about to be added.  The
+     * first half of a surrogate pair at the end of the buffer stays
+     * in it, so that the transcoder sees both halves together.
+     */
+    void
+    flushBufferForMoreData();
 
     void
     doWrite(
